@@ -678,9 +678,9 @@ class CSSMatch(_DocumentNav):
 
         match = True
         # Collapse explicit wildcards: `-*-` becomes `-`, a trailing `-*` is redundant and is dropped.
-        lang_range = RE_WILD_STRIP.sub(lambda m: '-' if m.group(0).endswith('-') else '', lang_range).lower()
+        lang_range = util.lower(RE_WILD_STRIP.sub(lambda m: '-' if m.group(0).endswith('-') else '', lang_range))
         ranges = lang_range.split('-')
-        subtags = lang_tag.lower().split('-')
+        subtags = util.lower(lang_tag).split('-')
         length = len(ranges)
         slength = len(subtags)
         rindex = 0
